@@ -313,6 +313,7 @@ pub struct Counters {
     pub time_advances: u64,
     pub eager_advances: u64,
     pub clock_jumps: u64,
+    pub wall_steps_back: u64,
     pub stall_skips: u64,
     pub blocks: u64,
     pub select_choices: u64,
@@ -441,6 +442,7 @@ pub fn run<F: FnOnce() + Send + 'static>(cfg: SimCfg, mut choices: Choices, reco
     STEPS.store(0, Ordering::SeqCst);
     SIM_CLOCK_ON.store(true, Ordering::SeqCst);
     NOW.store(epoch, Ordering::SeqCst);
+    WALL_SKEW_NS.store(0, Ordering::SeqCst);
     let sim = Arc::new(Sim {
         st: Mutex::new(st),
         host: Parker::new(),
@@ -1169,6 +1171,28 @@ pub fn jump_clock_ns(ns: u64) {
     st.ctr.clock_jumps += 1;
     let t = st.now + ns;
     set_now(&mut st, t);
+}
+
+/// Wall-clock skew (ns, <= 0): what `time::SystemTime::now()` reads is the virtual clock plus
+/// this.  Timers, sleeps and `Instant` keep following the (monotonic) virtual clock, as on a
+/// real machine whose administrator or NTP daemon steps CLOCK_REALTIME.
+pub static WALL_SKEW_NS: std::sync::atomic::AtomicI64 = std::sync::atomic::AtomicI64::new(0);
+
+/// Fault: step the wall clock back by `ns` (monotonic time is unaffected).
+pub fn wall_step_back_ns(ns: u64) {
+    let Some((sim, _me)) = ctx() else { return };
+    let mut st = sim.lock();
+    st.ctr.wall_steps_back += 1;
+    let cur = WALL_SKEW_NS.load(Ordering::SeqCst);
+    // never before the epoch second the run started in: `Time::unix()` unwraps there
+    let floor = -(st.now.saturating_sub(1_000_000_000) as i64);
+    WALL_SKEW_NS.store((cur - ns as i64).max(floor), Ordering::SeqCst);
+}
+
+/// The wall clock: virtual clock plus skew.
+pub fn wall_read() -> Option<u64> {
+    let ns = clock_read()?;
+    Some((ns as i64 + WALL_SKEW_NS.load(Ordering::SeqCst)).max(0) as u64)
 }
 
 /// Cooperative fault point: called by the simulator channel right after a worker task received
